@@ -1428,6 +1428,39 @@ mod imp {
                     Ok("ok".into())
                 }),
             ));
+            // O: the <onexit> content of the invoking state still talks to the child: the invocation is cancelled after
+            // the onexit handlers have run, so an event sent to '#_kid' from there is queued before the cancellation
+            let kid_o = child_doc(r##"<state id="k"><onentry><send event="up" target="#_parent"/></onentry><transition event="bye"><script>mark('k-got', _event.name)</script></transition></state>"##);
+            let doc_o = format!(
+                r##"<scxml {ns} name="paro"><state id="a"><transition event="go" target="b"/><transition event="fin"><script>notify('fin')</script></transition>
+ <transition event="error"><script>mark('p-error', _event.name)</script></transition></state>
+<state id="b"><invoke id="kid"><content>{kid}</content></invoke>
+ <onexit><send event="bye" target="#_kid"/><script>mark('exit-b')</script></onexit>
+ <transition event="up"><script>notify('up')</script></transition>
+ <transition event="leave" target="a"/>
+ <transition event="error"><script>mark('p-error', _event.name)</script></transition></state></scxml>"##,
+                ns = NS,
+                kid = kid_o
+            );
+            v.push(scen(
+                "onexit-sends-to-child",
+                1,
+                2,
+                doc_o,
+                vec![("go", "up"), ("leave", ""), ("fin", "fin")],
+                Box::new(|o: &Obs| {
+                    basic_outcome(o)?;
+                    let got: Vec<String> = marks_of(o, "k-got").iter().map(|m| m[1].clone()).collect();
+                    let errs: Vec<String> = marks_of(o, "p-error").iter().map(|m| m[1].clone()).collect();
+                    if got != vec!["bye".to_string()] || !errs.is_empty() {
+                        return Err((
+                            "cancelled-before-onexit".into(),
+                            format!("<onexit> of the invoking state sends 'bye' to '#_kid': the child processed {:?}, the parent got error events {:?} (the invocation must still exist while the onexit content runs)", got, errs),
+                        ));
+                    }
+                    Ok("ok".into())
+                }),
+            ));
             // L: nested invokes: the child invokes a grandchild and relays its event; when the parent leaves the
             // invoking state the child is cancelled and, by exiting its own invoking state, cancels the grandchild:
             // a probe queued behind that cancellation is never processed and no session thread is left behind
